@@ -7,9 +7,9 @@
 //!   `hang` / `crash …`   produced by the supervisor in `exec_panic.rs`, never here
 //!
 //! Arguments: integers `[-]<hex>`, machine sizes `d:<decimal>` (u64 range), strings `s:<hex of UTF-8 bytes>`,
-//! floats `f:<base 2|10>:<signif hex>:<exp dec>:<precision dec>:<mode Z|H>` (signif 0 with exp > 0 / < 0 is
-//! +inf / -inf), rationals as two integers `<num> <den>` followed by `R` (RBig) or `X` (Relaxed),
-//! IEEE values as `d:<bit pattern>`.
+//! floats `f:<base 2|10>:<signif hex>:<exp dec>:<precision dec>:<mode Z|H>` (signif 0 with exp 1 / -1 is
+//! +inf / -inf; value operands must be canonical), rationals as two integers `<num> <den>` followed by `k:R` (RBig)
+//! or `k:X` (Relaxed), ring operation names as `fn:add|sub|mul|div|eq`, IEEE values as `d:<bit pattern>`.
 //! The first argument of the ops whose documented behaviour depends on the build profile
 //! (`f.from_repr`) is `d:1` (debug assertions on) / `d:0`; the harness refuses a mismatch.
 #![allow(deprecated)]
@@ -44,6 +44,18 @@ fn p_u32(s: &str) -> Result<u32, String> {
 }
 
 const OK: &str = "ok_";
+
+fn p_kind(s: &str) -> Result<&'static str, String> {
+    match s {
+        "k:R" => Ok("R"),
+        "k:X" => Ok("X"),
+        _ => Err(format!("bad-arg kind {}", s)),
+    }
+}
+
+fn p_fn(s: &str) -> Result<&str, String> {
+    s.strip_prefix("fn:").ok_or_else(|| format!("bad-arg fn {}", s))
+}
 
 /// `ok` with a non-compared annotation
 fn ret<T: std::fmt::Debug>(what: &str, v: &T) -> Res {
@@ -390,7 +402,7 @@ fn int_op(op: &str, a: &[&str]) -> Option<Res> {
             }
             "m.same" => {
                 // m.same <fn> <m> <a> <b>   both operands in ONE ring
-                let f = arg(a, 0)?;
+                let f = p_fn(arg(a, 0)?)?;
                 let ring = ConstDivisor::new(p_ubig(arg(a, 1)?)?);
                 let x = ring.reduce(p_ibig(arg(a, 2)?)?);
                 let y = ring.reduce(p_ibig(arg(a, 3)?)?);
@@ -398,7 +410,7 @@ fn int_op(op: &str, a: &[&str]) -> Option<Res> {
             }
             "m.diff" => {
                 // m.diff <fn> <m1> <a> <m2> <b>   operands in two ConstDivisor instances (even if m1 = m2)
-                let f = arg(a, 0)?;
+                let f = p_fn(arg(a, 0)?)?;
                 let r1 = ConstDivisor::new(p_ubig(arg(a, 1)?)?);
                 let x = r1.reduce(p_ibig(arg(a, 2)?)?);
                 let r2 = ConstDivisor::new(p_ubig(arg(a, 3)?)?);
@@ -505,20 +517,27 @@ fn mk_repr<const B: Word>(x: &FA) -> Repr<B> {
 
 /// builds the FBig WITHOUT the `from_repr` debug assertion getting in the way of the operation under test:
 /// the repr is rounded into the context first when it has more digits than the precision
-fn mk<R: Round, const B: Word>(x: &FA) -> FBig<R, B> {
-    let r = mk_repr::<B>(x);
-    let ctx = Context::<R>::new(x.prec);
-    if r.is_infinite() || x.prec == 0 || r.digits() <= x.prec {
-        FBig::from_repr(r, ctx)
-    } else {
-        FBig::from_repr(r, Context::<R>::new(0)).with_precision(x.prec).value()
+/// operands of the value ops must be canonical (normalized, infinities exactly (0, +-1), significand within the
+/// precision): building them with `FBig::from_repr` is then within its documented contract
+fn mk<R: Round, const B: Word>(x: &FA) -> Result<FBig<R, B>, String> {
+    let bad = || "bad-arg non-canonical float operand".to_string();
+    if x.signif.is_zero() && !(x.exp == 0 || x.exp == 1 || x.exp == -1) {
+        return Err(bad());
     }
+    let r = mk_repr::<B>(x);
+    if !r.is_infinite() && (r.significand() != &x.signif || r.exponent() != x.exp) {
+        return Err(bad());
+    }
+    if !(r.is_infinite() || x.prec == 0 || r.digits() <= x.prec) {
+        return Err(bad());
+    }
+    Ok(FBig::from_repr(r, Context::<R>::new(x.prec)))
 }
 
 fn float_run<R: Round, const B: Word>(op: &str, a: &[&str]) -> Res {
     let f0 = |i: usize| -> Result<FBig<R, B>, String> {
         let fa = p_fa(arg(a, i)?)?;
-        guard(|| mk::<R, B>(&fa))
+        guard(|| mk::<R, B>(&fa))?
     };
     match op {
         "f.add" | "f.sub" | "f.mul" | "f.div" | "f.rem" | "f.div_euclid" | "f.rem_euclid" | "f.powf" | "f.cmp" => {
@@ -580,7 +599,7 @@ fn float_run<R: Round, const B: Word>(op: &str, a: &[&str]) -> Res {
         }
         "f.sqr" | "f.cubic" | "f.sqrt" | "f.inv" | "f.ln" | "f.ln_1p" | "f.exp" | "f.exp_m1" | "f.to_int"
         | "f.trunc" | "f.fract" | "f.ceil" | "f.floor" | "f.round" | "f.split_at_point" | "f.ulp" | "f.to_f32"
-        | "f.to_f64" | "f.neg_abs" | "f.fmt" | "f.to_int_try" | "f.to_base" | "f.info" => {
+        | "f.to_f64" | "f.neg_abs" | "f.fmt" | "f.to_int_try" | "f.to_decimal" | "f.to_binary" | "f.info" => {
             let x = f0(0)?;
             let ctx = x.context();
             match op {
@@ -648,12 +667,13 @@ fn float_run<R: Round, const B: Word>(op: &str, a: &[&str]) -> Res {
                     let _ = (u8::try_from(x.clone()), i64::try_from(x.clone()), u128::try_from(x.clone()));
                     return resf(IBig::try_from(x));
                 }
-                "f.to_base" => {
+                "f.to_decimal" => {
                     let _ = x.to_decimal();
+                    let _ = x.clone().with_base::<10>();
+                }
+                "f.to_binary" => {
                     let _ = x.to_binary();
-                    let _ = x.clone().with_base::<3>();
-                    let _ = x.clone().with_base::<16>();
-                    let _ = x.with_base_and_precision::<7>(5);
+                    let _ = x.clone().with_base::<2>();
                 }
                 _ => {
                     let _ = (x.precision(), x.digits(), x.repr().digits(), x.repr().digits_ub(), x.repr().digits_lb(), x.repr().is_int());
@@ -764,7 +784,7 @@ fn ratio_op(op: &str, a: &[&str]) -> Option<Res> {
         match op {
             "q.from_parts" => {
                 let (n, d) = (p_ibig(arg(a, 0)?)?, p_ubig(arg(a, 1)?)?);
-                match arg(a, 2)? {
+                match p_kind(arg(a, 2)?)? {
                     "R" => drop(RBig::from_parts(n, d)),
                     _ => drop(Relaxed::from_parts(n, d)),
                 }
@@ -772,7 +792,7 @@ fn ratio_op(op: &str, a: &[&str]) -> Option<Res> {
             }
             "q.from_parts_signed" => {
                 let (n, d) = (p_ibig(arg(a, 0)?)?, p_ibig(arg(a, 1)?)?);
-                match arg(a, 2)? {
+                match p_kind(arg(a, 2)?)? {
                     "R" => drop(RBig::from_parts_signed(n, d)),
                     _ => drop(Relaxed::from_parts_signed(n, d)),
                 }
@@ -780,7 +800,7 @@ fn ratio_op(op: &str, a: &[&str]) -> Option<Res> {
             }
             "q.parse" => {
                 let s = p_str(arg(a, 0)?)?;
-                return match arg(a, 1)? {
+                return match p_kind(arg(a, 1)?)? {
                     "R" => {
                         let _ = s.parse::<RBig>();
                         resf(RBig::from_str(&s))
@@ -794,14 +814,14 @@ fn ratio_op(op: &str, a: &[&str]) -> Option<Res> {
             "q.from_str_radix" => {
                 let s = p_str(arg(a, 0)?)?;
                 let r = p_u32(arg(a, 1)?)?;
-                return match arg(a, 2)? {
+                return match p_kind(arg(a, 2)?)? {
                     "R" => resf(RBig::from_str_radix(&s, r)),
                     _ => resf(Relaxed::from_str_radix(&s, r)),
                 };
             }
             "q.from_str_prefix" => {
                 let s = p_str(arg(a, 0)?)?;
-                return match arg(a, 1)? {
+                return match p_kind(arg(a, 1)?)? {
                     "R" => resf(RBig::from_str_with_radix_prefix(&s)),
                     _ => resf(Relaxed::from_str_with_radix_prefix(&s)),
                 };
@@ -822,7 +842,7 @@ fn ratio_op(op: &str, a: &[&str]) -> Option<Res> {
         if d.is_zero() {
             return Err("bad-arg zero denominator".to_string());
         }
-        let kind = arg(a, 2)?;
+        let kind = p_kind(arg(a, 2)?)?;
         macro_rules! both {
             ($x:ident, $body:expr) => {{
                 if kind == "R" {
